@@ -16,7 +16,9 @@ ASSUMPTIONS = [
 TIMEOUT_MS = {"quick": 10000, "thorough": 30000}
 
 GRID = {
-    "T_HOO": [{}, {"nu": 1, "rho": 0.9}, {"nu": 0.1, "rho": 0.5}, {"nu": 10, "rho": 0.3, "rounds": 1000}, {"nu": 0.3, "rho": 0.5}, {"nu": 0.15, "rho": 0.5}, {"nu": 0.02, "rho": 0.5}, {"nu": 0.05, "rho": 0.8, "rounds": 64}],
+    "T_HOO": [{}, {"nu": 1, "rho": 0.9}, {"nu": 0.1, "rho": 0.5}, {"nu": 10, "rho": 0.3, "rounds": 1000}, {"nu": 0.3, "rho": 0.5}, {"nu": 0.15, "rho": 0.5}, {"nu": 0.02, "rho": 0.5}, {"nu": 0.05, "rho": 0.8, "rounds": 64},
+              # truncation ratio in (-1, 0) (ceil = 0: only the root is ever split), in (0, 1) and in (2, 3) with rho != 1/2 (seed S-C06-7)
+              {"nu": 0.07, "rho": 0.5}, {"nu": 0.6, "rho": 0.25, "rounds": 30}, {"nu": 2.5, "rho": 0.7, "rounds": 40}],
     "HCT": [{}, {"c": 0.1}, {"nu": 0.1, "rho": 0.5}, {"nu": 10, "rho": 0.3, "c": 0.5}, {"c": 0.35, "delta": 0.1}],
     "VHCT": [{}, {"c": 0.1}, {"bound": 2, "c": 0.05}],
 }
@@ -61,6 +63,9 @@ def configs(tier, seed, prefix="index"):
                     pre = dict({"P": P, "k": k, "seed": sd, "peak": (0.3, 0.8, 0.55, 0.1)[sd], "noise": 0.25}, **extra)
                     out.append({"name": "%s-%s-%s-d1-P%d+%d-s%d" % (prefix, algo, part, P, k, sd), "algo": algo, "part": part, "d": 1, "T": P + k,
                                 "params": GRID[algo][1] if (algo == "HCT" and sd in (1, 2)) else {}, "prefix": pre, "cost": P * 4 * (5 if algo == "VHCT" else 1)})
+    for algo, P in (("T_HOO", 30), ("HCT", 30), ("VHCT", 30)):
+        pre = {"P": P, "k": 1, "seed": 5, "peak": 0.3, "noise": 0.9, "pattern": "clip_int"}
+        out.append({"name": "%s-%s-B-d1-P%d+1-clipint" % (prefix, algo, P), "algo": algo, "part": "B", "d": 1, "T": P + 1, "params": {}, "prefix": pre, "cost": P * 5})
     # across the doubling epoch at round 512/513 (HCT, VHCT) and 1024/1025 (thorough): t+ and with it every threshold and
     # confidence width change there; the 511 (1023) concrete rounds before are checked like any other round (seed S-C05-6)
     for algo, P, k in (("HCT", 511, 3), ("VHCT", 512, 1)) + ((("HCT", 1023, 3), ("VHCT", 1024, 1)) if q else ()):
